@@ -157,3 +157,69 @@ def name4(ctx, rule="NAME-4"):
         ok = len(cs) == 1 and cs[0][1].startswith("cfb::<internal::stream::Stream<F> as ") and cs[0][1].endswith("::" + meth) and cs[0][2][0] == "&*p1.stream" and cs[0][3]["dest"]["l"] == 0 \
             and all(a == "p%d" % (i + 2) or a == "&*p%d" % (i + 2) for i, a in enumerate(cs[0][2][1:]))
         ctx.check(ok, rule, "%s::%s forwards" % (imp.split("<")[0], meth), "", "%s::%s does not simply forward to the wrapped container stream: %s" % (imp.split("<")[0], meth, [(short(c[1]), c[2]) for c in cs]), f.loc(), fn=f.name)
+
+
+def b64_tables(ctx, rule="B64-TABLE"):
+    """the stream-name packing tables and ranges agree between encode, decode, to_b64 and from_b64 (C11, C02, C01)"""
+    prog = ctx.prog
+    ctx.rule(rule, "to_b64/from_b64 are mutually inverse tables over 0..63 ('0'-'9' 0.., 'A'-'Z' 10.., 'a'-'z' 36.., '.' 62, '_' 63); encode emits 0x3800 + (v2 << 6) + v1 for a "
+                   "pair and 0x4800 + v for a single; decode recognises exactly the half-open ranges 0x3800..0x4800 (pair: low six bits first, then >> 6) and 0x4800..0x4840 "
+                   "(single), subtracting the same bases; the table marker is U+4840")
+    f = prog.fn(SN + "to_b64")
+    S = Sym(prog, f)
+    rets = []
+    for bl in f.blocks:
+        if bl["cleanup"]:
+            continue
+        for s in bl["stmts"]:
+            r = s["rhs"]
+            if s["lhs"]["l"] == 0 and r["rv"] == "agg" and r.get("variant") == "Some":
+                guard = [(e, tr) for (e, tr, g) in S.bool_facts_at(bl["id"])][-1:]
+                rets.append((S.val(r["ops"][0]), guard[0][0] if guard else ""))
+    want = [("((p1 as u32) Sub! (c:48 as u32)).0", "is_ascii_digit"), ("((c:10 Add! (p1 as u32)).0 Sub! (c:65 as u32)).0", "is_ascii_uppercase"),
+            ("((c:36 Add! (p1 as u32)).0 Sub! (c:97 as u32)).0", "is_ascii_lowercase"), ("c:62", "(p1 Eq c:46)"), ("c:63", "(p1 Eq c:95)")]
+    ok = len(rets) == 5 and all(any(v == wv and wg in g for (v, g) in rets) for (wv, wg) in want)
+    ctx.check(ok, rule, "to_b64 table", "", "to_b64 maps %s; expected digits->0.., upper->10.., lower->36.., '.'->62, '_'->63" % rets, f.loc(), fn=f.name, key=rule + "|to_b64")
+    f = prog.fn(SN + "from_b64")
+    S = Sym(prog, f)
+    cs = symcalls(prog, f, S)
+    fu = sorted(a[0] for b, n, a, t in cs if n.endswith("char::from_u32"))
+    lts = sorted(S.val(s["rhs"]["ops"][1]) for bl in f.blocks if not bl["cleanup"] for s in bl["stmts"] if s["rhs"]["rv"] == "bin" and s["rhs"]["op"] == "Lt" and not s["sp"].get("exp")
+                 and S.val(s["rhs"]["ops"][0]) == "p1")
+    consts = sorted(S.val(o) for bl in f.blocks if not bl["cleanup"] for s in bl["stmts"] if s["lhs"]["l"] == 0 and s["rhs"]["rv"] == "use" for o in s["rhs"]["ops"] if o.get("k") == "const")
+    eq62 = any(s["rhs"]["rv"] == "bin" and s["rhs"]["op"] == "Eq" and [S.val(o) for o in s["rhs"]["ops"]] == ["p1", "c:62"] for bl in f.blocks for s in bl["stmts"])
+    ok = fu == sorted(["(p1 Add! (c:48 as u32)).0", "((p1 Sub! c:10).0 Add! (c:65 as u32)).0", "((p1 Sub! c:36).0 Add! (c:97 as u32)).0"]) and \
+        [x for x in lts if x in ("c:10", "c:36", "c:62")] == ["c:10", "c:36", "c:62"] and consts == ["c:46", "c:95"] and eq62
+    ctx.check(ok, rule, "from_b64 table", "", "from_b64 computes %s with thresholds %s and constants %s; it is not the inverse of to_b64" % (fu, lts, consts), f.loc(), fn=f.name, key=rule + "|from_b64")
+    f = prog.fn(SN + "encode")
+    S = Sym(prog, f)
+    cs = symcalls(prog, f, S)
+    fu = [a[0] for b, n, a, t in cs if n.endswith("char::from_u32")]
+    pair = [x for x in fu if re.fullmatch(r"\(\(c:14336 Add! \(call@(\d+):internal::streamname::to_b64@Some\.0 Shl c:6\)\)\.0 Add! call@(\d+):internal::streamname::to_b64@Some\.0\)\.0", x)]
+    single = [x for x in fu if re.fullmatch(r"\(c:18432 Add! call@\d+:internal::streamname::to_b64@Some\.0\)\.0", x)]
+    okp = len(pair) == 1 and len(single) == 1 and len(fu) == 2
+    if okp:
+        m = re.fullmatch(r"\(\(c:14336 Add! \(call@(\d+):.*Shl c:6\)\)\.0 Add! call@(\d+):.*", pair[0])
+        hi, lo = int(m.group(1)), int(m.group(2))
+        # lo comes from the current char (next), hi from the peeked following char
+        lo_arg = S.val(f.blocks[lo]["term"]["args"][0])
+        hi_arg = S.val(f.blocks[hi]["term"]["args"][0])
+        okp = "Iterator>::next@Some.0" in lo_arg and "peek@Some.0" in hi_arg
+    ctx.check(okp, rule, "encode packing", "0x3800 + (next << 6) + current ; 0x4800 + current", "encode packs %s" % fu, f.loc(), fn=f.name, key=rule + "|encode")
+    marker = [a for b, n, a, t in cs if n.endswith("String::push") and a[1] == "c:18496"]
+    ctx.check(len(marker) == 1 and has_fact(S, marker[0] and [b for b, n, a, t in cs if n.endswith("String::push") and a[1] == "c:18496"][0], r"^p2$", True), rule, "table marker U+4840 only for tables", "",
+              "encode does not push U+4840 exactly when is_table", f.loc(), fn=f.name, key=rule + "|marker")
+    f = prog.fn(SN + "decode")
+    S = Sym(prog, f)
+    cs = symcalls(prog, f, S)
+    rg = [a[0] for b, n, a, t in cs if n.endswith("::contains") and "Range" in a[0]]
+    ok = rg == ["&std::ops::Range::Range{c:14336,c:18432}", "&std::ops::Range::Range{c:18432,c:18496}"]
+    ctx.check(ok, rule, "decode ranges", "0x3800..0x4800 and 0x4800..0x4840", "decode tests %s; expected the half-open ranges 0x3800..0x4800 and 0x4800..0x4840 (the images of encode)" % rg, f.loc(), fn=f.name,
+              key=rule + "|decode-ranges")
+    fb = [a[0] for b, n, a, t in cs if n == SN + "from_b64"]
+    v = r"\(call@\d+:<std::iter::Peekable<I> as std::iter::Iterator>::next@Some\.0 as u32\)"
+    okd = len(fb) == 3 and re.fullmatch(r"\(\(%s Sub! c:14336\)\.0 BitAnd c:63\)" % v, fb[0]) and re.fullmatch(r"\(\(%s Sub! c:14336\)\.0 Shr c:6\)" % v, fb[1]) and \
+        re.fullmatch(r"\(%s Sub! c:18432\)\.0" % v, fb[2])
+    ctx.check(bool(okd), rule, "decode unpacking", "low six bits, then >> 6; single: - 0x4800", "decode unpacks %s" % [x[-40:] for x in fb], f.loc(), fn=f.name, key=rule + "|decode")
+    pk = [a for b, n, a, t in cs if n.endswith("Peekable::<I>::peek")]
+    ctx.check(len(pk) == 1, rule, "decode strips one leading marker", "", "decode peeks %d times" % len(pk), f.loc(), fn=f.name)
